@@ -12,3 +12,4 @@ pub mod driver;
 pub mod gen;
 pub mod render;
 pub mod props;
+pub mod ub;
